@@ -98,8 +98,8 @@ Print Assumptions C30_check_file_once.
 Definition C30_example_reqs : list req :=
   [mkReq 3 7 true (-1) 2 CbHandle cf_none; mkReq 10 8 true 5 2 (CbCode 0) cf_none;
    mkReq 99 9 true 1 2 CbOther cf_none;
-   mkReq 200 10 true 1 0 CbOther (mkCf true true 0 1024 256 CbOther 0 [RBytes 256; RBytes 256; RCode 3; RBytes 256]);
-   mkReq 200 11 true 1 0 CbOther (mkCf true true 0 0 0 CbAttr 600 [RBytes 600; RBytes 0])].
+   mkReq 200 10 true 1 0 CbOther (mkCf true true 0 1024 256 CbOther 0 [RdBytes 256; RdBytes 256; RdCode 3; RdBytes 256]);
+   mkReq 200 11 true 1 0 CbOther (mkCf true true 0 0 0 CbAttr 600 [RdBytes 600; RdBytes 0])].
 Example C30_example :
   run_server C30_example_reqs =
     [1; 102; 7; 1; 1; 101; 8; 5; 1; 101; 9; 4; 1; 101; 10; 3; 1; 201; 11; 0].
